@@ -99,4 +99,186 @@ theorem Full_event_C05 (cfg : Cfg) (s s' : St) (sp : List OpenElem)
   rw [h2.1, h2.2]
   exact ⟨rfl, inv2⟩
 
+/-! ## No panic along protocol-conforming event sequences -/
+
+/-- every match id in the program is a selector index (`Ast::add_selector` inserts `match_id`s
+`0 … n-1`; the compiler copies them) — decidable side-condition on the configuration -/
+def IdsBounded (prog : SelVM.Program) (n : Nat) : Prop :=
+  ∀ i ∈ prog.instructions, ∀ m ∈ i.associatedBranch.matchedIds, m < n
+
+def idsBoundedB (prog : SelVM.Program) (n : Nat) : Bool :=
+  prog.instructions.all fun i => i.associatedBranch.matchedIds.all fun m => decide (m < n)
+
+theorem idsBounded_of_B (prog : SelVM.Program) (n : Nat) (h : idsBoundedB prog n = true) : IdsBounded prog n := by
+  intro i hi m hm
+  simp only [idsBoundedB, List.all_eq_true, decide_eq_true_eq] at h
+  exact h i hi m hm
+
+/-- the program `SelectorMatchingVm::new` compiles for the configuration -/
+def theProgram (cfg : Cfg) : SelVM.Program := SelVM.compile (SelVM.Ast.ofSelectors (cfg.sels.map (·.1)))
+
+/-- the invariant along protocol-conforming runs: no fault; the typing invariant; package scope's
+invariant on the projection; package selvm's invariant on the VM -/
+structure J (cfg : Cfg) (s : St) : Prop where
+  fault : s.fault = none
+  valid : Valid cfg s
+  scope : ∃ sp, Inv cfg.selRegs cfg.docRegs sp (scopeState s)
+  vm : ∀ vm, s.vm = some vm → vm.program = theProgram cfg ∧ ∃ ts, SelVM.SemInv vm ts (theProgram cfg).enableNthOfType
+
+theorem J_init (cfg : Cfg) : J cfg (St.init cfg) where
+  fault := rfl
+  valid := ⟨init_good cfg, init_sync cfg⟩
+  scope := ⟨[], by rw [scopeState_init]; exact inv_init _ _⟩
+  vm := by
+    intro vm hv
+    unfold St.init at hv
+    simp only at hv
+    split at hv
+    · cases hv
+    · simp only [Option.some.injEq] at hv
+      subst hv
+      exact ⟨rfl, {}, SelVM.SemInv.init _ _⟩
+
+/-! ### the VM never panics and reports selector indices only -/
+
+theorem exec_some_branch (i : SelVM.Instruction) (st : SelVM.SelectorState) (n : Bytes) (m : Sel.AttributeMatcher)
+    (b : SelVM.ExecutionBranch) (h : i.exec st n m = .ok (some b)) : b = i.associatedBranch := by
+  unfold SelVM.Instruction.exec at h
+  simp only [bind, Except.bind, pure, Except.pure] at h
+  split at h
+  · cases h
+  · split at h
+    · split at h
+      · simp only [Except.ok.injEq, Option.some.injEq] at h; exact h.symm
+      · simp at h
+    · simp at h
+
+theorem vm_total (cfg : Cfg) (vm : SelVM.Vm) (ts : Spec.Css.TreeState) (hp : vm.program = theProgram cfg)
+    (inv : SelVM.SemInv vm ts (theProgram cfg).enableNthOfType) (t : Sel.StartTag) :
+    ∃ r, vm.handleStartTag t = .ok r := by
+  obtain ⟨hroot, hentry, hnth⟩ := SelVM.compile_layout (SelVM.Ast.ofSelectors (cfg.sels.map (·.1)))
+    (SelVM.ofSelectors_count _)
+  exact SelVM.SemInv.handleStartTag_total _ _ _ hroot hentry hnth inv hp t
+
+theorem vm_ids_bounded (cfg : Cfg) (vm vm' : SelVM.Vm) (ts : Spec.Css.TreeState) (nth : Bool)
+    (hp : vm.program = theProgram cfg) (hb : IdsBounded (theProgram cfg) cfg.sels.length)
+    (inv : SelVM.SemInv vm ts nth) (t : Sel.StartTag) (ms : List SelVM.MatchInfo)
+    (h : vm.handleStartTag t = .ok (vm', ms)) : ∀ i ∈ ms.map (·.matchId), i < cfg.sels.length := by
+  intro i hi
+  obtain ⟨hiff, _⟩ := inv.handleStartTag h
+  obtain ⟨a, b, hact, hib⟩ := (hiff i).mp hi
+  obtain ⟨⟨instr, hinstr, hexec⟩, _⟩ := hact
+  have := exec_some_branch _ _ _ _ _ hexec
+  rw [this] at hib
+  rw [hp] at hinstr
+  exact hb instr (List.mem_of_getElem? hinstr) i hib
+
+theorem preOk_of_stackInv {st : SelVM.Stack} {ts : Spec.Css.TreeState} (inv : SelVM.StackInv st ts) : PreOk st := by
+  intro name hany it hit
+  have h0 : SelVM.cget st.openNameCounts (asciiLowerBytes name) = 0 := by
+    have hk := SelVM.any_key_iff inv.countsOk (asciiLowerBytes name)
+    by_cases hc : 1 ≤ SelVM.cget st.openNameCounts (asciiLowerBytes name)
+    · have := hk.mpr hc; rw [hany] at this; cases this
+    · omega
+  rw [inv.counts] at h0
+  unfold SelVM.nameKeyCount at h0
+  rw [List.countP_eq_zero] at h0
+  have := h0 it hit
+  simp only [beq_iff_eq] at this
+  cases hl : Sel.localNameEq it.localName name with
+  | false => rfl
+  | true => exact absurd ((SelVM.localNameEq_iff _ _).mp hl) this
+
+/-! ### residual sites, typing invariant along events -/
+
+def rAttr : String := "Bytes::slice out of range (attribute raw)"
+def rBase : String := "token source range before the slice base"
+def rPayload : String := "end-tag handler payload missing"
+
+/-- the panic branches of the GLUE that are not excluded here: slices of the token out of range (C15's
+lexeme invariant) and a missing end-tag payload (needs uniqueness of the ghost ordinals) -/
+def Residual (e : Err) : Prop := e = .panic rAttr ∨ e = .panic rBase ∨ e = .panic rPayload
+
+theorem startPhase_valid {cfg : Cfg} {s : St} (h : Valid cfg s) (name : LocalName) (ns : Model.Ns) (info : AuxInfo) :
+    Valid cfg (startPhase s name ns info).1 := by
+  have h1 : Valid cfg (startTag s name ns).1 := ⟨startTag_good h.toGood name ns, startTag_sync h.sync name ns⟩
+  unfold startPhase
+  dsimp only
+  split
+  · exact h1
+  · exact h1
+  · exact ⟨auxInfo_good h1.toGood info, auxInfo_sync h1.sync info⟩
+
+theorem tokIf_valid {cfg : Cfg} {s : St} (h : Valid cfg s) (b : Bool) (tok : Model.Token) :
+    Valid cfg (tokIf cfg b s tok).1 := by
+  unfold tokIf
+  split
+  · exact ⟨token_good h.toGood tok, token_sync h.sync tok⟩
+  · exact h
+
+theorem ctlStep_valid {cfg : Cfg} {s : St} (h : Valid cfg s) (ev : CtlEv) : Valid cfg (ctlStep cfg s ev).1 := by
+  cases ev with
+  | start name ns info tok =>
+    simp only [ctlStep]
+    have h1 := startPhase_valid h name ns info
+    split
+    · exact h1
+    · exact tokIf_valid h1 _ _
+  | end_ name tok =>
+    simp only [ctlStep]
+    exact tokIf_valid ⟨endTag_good h.toGood name, endTag_sync h.sync name⟩ _ _
+  | other tok =>
+    simp only [ctlStep]
+    exact tokIf_valid h _ _
+
+theorem disp_handleStartTag_ok {d : Dispatcher} (hw : DispWf d) (script : ElemScript) (ord : Nat)
+    (cur : Option ElementDescriptor) : ∃ r, d.handleStartTag script ord cur = .ok r := by
+  obtain ⟨⟨el, invoked⟩, hel⟩ := deactivate_ok hw.element
+  unfold Dispatcher.handleStartTag
+  rw [hel]
+  dsimp only
+  split
+  · split
+    · split <;> exact ⟨_, rfl⟩
+    · exact ⟨_, rfl⟩
+  · exact ⟨_, rfl⟩
+
+theorem tokStartTag_class (cfg : Cfg) (s : St) (hw : DispWf s.disp) (name : Bytes)
+    (attrs : List (Bytes × Bytes × AttrOutline)) (ns : Model.Ns) (sc : Bool) (raw : Bytes) (src : Range) (base : Nat)
+    (e : Err) (h : (tokStartTag cfg s name attrs ns sc raw src base).2.err = some e) : e = .handler ∨ Residual e := by
+  unfold tokStartTag at h
+  split at h
+  · split at h
+    · simp only [Option.some.injEq] at h; exact Or.inr (Or.inl h.symm)
+    · rename_i as hm
+      dsimp only at h
+      generalize (if 0 < s.disp.removedContent then
+        StartTag.apply { name := name, attributes := as, ns := nsEdit ns, selfClosing := sc, raw := raw } (StartTagOp.mut MutOp.remove)
+        else { name := name, attributes := as, ns := nsEdit ns, selfClosing := sc, raw := raw }) = st at h
+      obtain ⟨fd, _⟩ := runClosures_frame cfg.elementScripts kElement Who.element (seeElement ns) Element.applyOps src
+          s.disp.element.forEachActive s (Element.new st s.disp.nextElementCanHaveContent)
+      generalize runClosures cfg.elementScripts kElement Who.element (seeElement ns) Element.applyOps src
+          s.disp.element.forEachActive s (Element.new st s.disp.nextElementCanHaveContent) = r at h fd
+      split at h
+      · simp only [Option.some.injEq] at h; exact Or.inl h.symm
+      · split at h
+        · rename_i p hh
+          have hwr : DispWf r.1.disp := by rw [fd]; exact hw
+          obtain ⟨r', hr'⟩ := disp_handleStartTag_ok hwr (fun h _ =>
+            elemActOf s.disp.nextElementCanHaveContent (cyc (cfg.elementScripts h) (invGet s.inv (kElement, h))).1)
+            r.1.ord r.1.currentElementData
+          rw [hr'] at hh; cases hh
+        · simp at h
+  · simp only [Option.some.injEq] at h; exact Or.inr (Or.inr (Or.inl h.symm))
+
+theorem tokEndTag_class (s : St) (hw : DispWf s.disp) (name raw : Bytes) (src : Range) (e : Err)
+    (h : (tokEndTag s name raw src).2.err = some e) : Residual e := by
+  unfold tokEndTag at h
+  obtain ⟨r, hr⟩ := removeTail_ok hw.endTag
+  rw [hr] at h
+  dsimp only at h
+  split at h
+  · simp only [Option.some.injEq] at h; exact Or.inr (Or.inr h.symm)
+  · simp at h
+
 end LolHtml.Thm.Full
